@@ -132,12 +132,14 @@ def c05_thr(tier, seed):
 # ------------------------------------------------------------------------------------------------ C09
 def grammar(tier, seed):
     rng = random.Random(seed)
-    ints = ["0", "1", "12", "-3", "+4", "007", "1_000", " 5", "5 ", "٣", "１２", "0x1f", "1e3", ""]
-    floats = ["1.5", "-0.5", ".5", "5.", "1e3", "1E-3", "nan", "NaN", "inf", "-inf", "Infinity", "1_0.5", " 1.5 ", "1,5"]
+    ints = ["0", "1", "12", "-3", "+4", "007", "1_000", " 5", "5 ", "٣", "１２", "0x1f", "1e3", "", "9" * 400, "-" + "1" * 320, "1" + "0" * 308, "9" * 17]
+    floats = ["1.5", "-0.5", ".5", "5.", "1e3", "1E-3", "nan", "NaN", "inf", "-inf", "Infinity", "1_0.5", " 1.5 ", "1,5", "1e999", "-1e400", "1e-400",
+              "0.1234567890123456789", "123456789012345678.5"]
     bools = ["true", "false", "True", "FALSE", "tRuE", " true", "yes", "1"]
     dates = ["2018-12-31", "2018-1-2", "20181231", "2018-12", "12/31/2018", "2018-12-31 ", "2018-13-01"]
-    times = ["12:58", "12:58:12", "12:58:12.123", "12:58:12Z", "25:00", "1258"]
-    dts = ["2018-12-31T12:58:12", "2018-12-31T12:58:12Z", "2018-12-31 12:58", "2018-12-31T12:58:12+03:00", "2018-12-31T"]
+    times = ["12:58", "12:58:12", "12:58:12.123", "12:58:12Z", "25:00", "1258", "04:15:34.0345", "12:30:00.123456", "23:59:59.99999", "00:00:00.000001"]
+    dts = ["2018-12-31T12:58:12", "2018-12-31T12:58:12Z", "2018-12-31 12:58", "2018-12-31T12:58:12+03:00", "2018-12-31T",
+           "2018-12-31T12:58:12.0345", "2018-12-31T12:58:12.123456+03:00"]
     out = ints + floats + bools + dates + times + dts + ["abc", "a1", "-", "."]
     if tier == "thorough":
         alpha = "0123456789+-.eE_ :TZtruefals/"
